@@ -33,6 +33,12 @@ class SQLLiteQueryBuilder(QueryBuilder):
     def __init__(self, **kwargs) -> None:
         super().__init__(wrapper_cls=SQLLiteValueWrapper, **kwargs)
 
+    def _limit_sql(self, ctx: SqlContext) -> str:
+        if self._limit is None and self._offset is not None:
+            # SQLite has no OFFSET without LIMIT; a negative limit means "no upper bound"
+            return " LIMIT -1"
+        return super()._limit_sql(ctx)
+
     def get_sql(self, ctx: SqlContext | None = None) -> str:
         ctx = ctx or SQLLiteQuery.SQL_CONTEXT
         if not (self._selects or self._insert_table or self._delete_from or self._update_table):
